@@ -16,15 +16,18 @@ CFG = {
         "Leptos.Html.C06_view_structure_preserved",
         "Leptos.Html.C06_view_structure_preserved_partial",
         "Leptos.Html.C06_view_raw_text_child_witness",
-        "Leptos.Html.C06_head_partial",
+        "Leptos.Html.C06_head",
+        "Leptos.Html.C06_title_fixed",
         # refutations of the full statements (kernel-evaluated witnesses)
         "Leptos.Html.C06_raw_text_child_witness",
         "Leptos.Html.C06_raw_text_child_witness_others",
         "Leptos.Html.C06_nul_witness",
         "Leptos.Html.C06_cr_witness",
         "Leptos.Html.C06_structure_preserved_full_false",
-        "Leptos.Html.C06_title_witness",
         "Leptos.Html.C06_head_full_false",
+        # regression witnesses for the repaired F-C06-2 (old code = headHtmlOld)
+        "Leptos.Html.C06_title_old_witness",
+        "Leptos.Html.C06_head_old_full_false",
         # tables regenerated from the source on every run
         "Leptos.Html.C06_table_text",
         "Leptos.Html.C06_table_attr",
@@ -33,7 +36,7 @@ CFG = {
         "Leptos.Html.C06_table_elements",
         "Leptos.Html.C06_table_elements_complete",
         "Leptos.Html.C06_table_parser_agrees",
-        "Leptos.Html.C06_table_macro_lists_differ",
+        "Leptos.Html.C06_table_macro_lists",
         # the lemmas the view theorem rests on
         "Leptos.Html.run_escapeText",
         "Leptos.Html.run_escapeAttr",
